@@ -128,7 +128,8 @@ def zernike_nm_seq(nms, r, t, norm=True):
         sines[m] = np.sin(m*t)
         cosines[m] = np.cos(m*t)
 
-    out = np.empty((len(nms), *r.shape), dtype=r.dtype)
+    # rows hold what the recurrence produces: floats, also for integer coordinates
+    out = np.empty((len(nms), *r.shape), dtype=np.result_type(r, 1.0))
     k = 0
     for n, m in nms:
         absm = abs(m)
